@@ -10,7 +10,8 @@ ID = "C10"
 LEVEL = "fault_enumeration"
 RULE = ("valid delimited streams (2-30 frames; written by pyjelly and by the reference producer) are cut at EVERY byte offset "
         "0..len and each prefix is parsed with parse_jelly_flat of both integrations (in 40% of the streams also through the two-step "
-        "get_options_and_frames + parse_jelly_flat(frames=, options=) path; parse_jelly_grouped too in thorough), from a "
+        "get_options_and_frames + parse_jelly_flat(frames=, options=) path; every third cut also in lockstep with a parser of "
+        "another, complete stream; parse_jelly_grouped too in thorough), from a "
         "BytesIO and from one other source per cut (a real file on disk; non-seekable raw, raw one byte at a time, buffered - each reports end-of-file after the "
         "cut and trips a logical-step guard if the parser polls it 2000 times at end-of-file). "
         "With S the full event list and F(k) the events of the frames lying wholly inside the first k bytes, the yielded list "
@@ -100,9 +101,40 @@ def cut_source(src: str, prefix: bytes):
     raise ValueError(src)
 
 
-def judge_cut(integ: str, entry: str, data: bytes, k: int, S: list, complete_before: int, src: str = "bytesio"):
+def collect_alongside(integ: str, inp, other: bytes):
+    """The cut feed read in lockstep with ANOTHER, healthy feed in the same process (a merge of two connections)."""
+    from pyjelly.integrations.generic import parse as gparse
+    from pyjelly.integrations.rdflib import parse as rparse
+    mod = gparse if integ == "generic" else rparse
+    conv = T.event_from_generic if integ == "generic" else T.event_from_rdflib
+    out, exc = [], None
+    b = mod.parse_jelly_flat(io.BytesIO(other))
+    b_live = True
+    try:
+        a = mod.parse_jelly_flat(inp)
+        while True:
+            if b_live:
+                try:
+                    if next(b, None) is None:
+                        b_live = False
+                except Exception:  # noqa: BLE001 - the OTHER feed's own outcome (e.g. RDF-star read through rdflib) is not judged
+                    b_live = False
+            x = next(a, None)
+            if x is None:
+                break
+            out.append(conv(x))
+    except Exception as e:  # noqa: BLE001
+        exc = e
+    return out, exc
+
+
+def judge_cut(integ: str, entry: str, data: bytes, k: int, S: list, complete_before: int, src: str = "bytesio",
+              other: bytes | None = None):
     """-> witness or None"""
-    if entry in ("flat", "flat-preread-header"):
+    if entry == "flat-alongside":
+        got, exc = collect_alongside(integ, io.BytesIO(data[:k]), other)
+        Y = T.norm_events(got)
+    elif entry in ("flat", "flat-preread-header"):
         inp = cut_source(src, data[:k])
         try:
             got, exc = pj.run_flat_collect(integ, inp, preread=entry == "flat-preread-header")
@@ -142,8 +174,15 @@ def _grouped_iter(integ, data):
     return pj.iter_grouped(integ, data)
 
 
+_OTHER: list = [None]
+
+
 def run_stream(ctx, vs, integs, entries):
     data = vs["data"]
+    other = _OTHER[0]
+    _OTHER[0] = data
+    if other is not None and "flat-alongside" not in entries:
+        entries = list(entries) + ["flat-alongside"]
     frames = vs["frames"]
     res = refdec.decode(frames)
     S = T.norm_events(res.events)
@@ -170,13 +209,16 @@ def run_stream(ctx, vs, integs, entries):
                 cb = complete if entry.startswith("flat") else len([e for e in res.events[:complete] if e[0] == "stmt"])
                 # the in-memory buffer always; one other source type per (stream, cut), rotating
                 srcs = ["bytesio"] + ([SOURCES[1 + (k + len(data)) % (len(SOURCES) - 1)]] if entry == "flat" else [])
+                if entry == "flat-alongside" and k % 3:
+                    continue                              # every third cut is also read next to another feed
                 for src in srcs:
-                    w = judge_cut(integ, entry, data, k, S, cb, src)
+                    w = judge_cut(integ, entry, data, k, S, cb, src, other)
                     ctx.observe("cuts-judged")
                     ctx.observe(f"cut-source:{src}")
                     if w is not None:
                         w.update({"bytes": data.hex(), "cut": k, "cut_kind": kind, "integration": integ, "entry": entry,
-                                  "producer": vs["producer"], "mode": vs["mode"], "source": src})
+                                  "producer": vs["producer"], "mode": vs["mode"], "source": src,
+                                  "other_bytes": other.hex() if entry == "flat-alongside" else None})
                         ctx.violation(w)
         nt = kind in ("inside-length-varint", "inside-entry-row", "between-entry-and-use", "on-frame-boundary")
         ctx.case((h, k), nt, sample={"stream_bytes": len(data), "frames": len(frames), "cut": k, "cut_kind": kind,
@@ -214,7 +256,8 @@ def replay(w: dict):
         if fr["span"][1] <= k:
             complete = tot
     cb = complete if w["entry"].startswith("flat") else len([e for e in res.events[:complete] if e[0] == "stmt"])
-    return judge_cut(w["integration"], w["entry"], data, k, S, cb, w.get("source", "bytesio"))
+    return judge_cut(w["integration"], w["entry"], data, k, S, cb, w.get("source", "bytesio"),
+                     bytes.fromhex(w["other_bytes"]) if w.get("other_bytes") else None)
 
 
 def classify(w: dict):
